@@ -27,19 +27,23 @@ class Recorder:
         self.max_traces = max_traces
         self._undo = []
         self.enabled = True
+        self._side = {}
+        self._serial = 0
+
+    # -- per-object recorder state --------------------------------------------------
+    def side(self, obj):
+        """Recorder-private state of a traced object.  Kept in a side table (with a strong reference to the object, so
+        that id() stays unique) instead of attributes: the repository's tests compare instance __dict__s."""
+        ent = self._side.get(id(obj))
+        if ent is None or ent[0] is not obj:
+            self._serial += 1
+            ent = (obj, {"tid": self._serial})
+            self._side[id(obj)] = ent
+        return ent[1]
 
     # -- events ---------------------------------------------------------------
     def key(self, obj):
-        # id() is reused after garbage collection: give every traced object its own serial number
-        k = getattr(obj, "_cv_tid", None)
-        if k is None:
-            self._serial = getattr(self, "_serial", 0) + 1
-            k = self._serial
-            try:
-                object.__setattr__(obj, "_cv_tid", k)
-            except Exception:
-                k = id(obj)
-        return k
+        return self.side(obj)["tid"]
 
     def emit(self, obj, ev, **meta):
         if not self.enabled:
@@ -123,25 +127,28 @@ def install_sampler_life(rec, step_extra=None):
 
     def tampered(s):
         # the test-suite sometimes assigns sampler._samples directly; such an object is no longer traced
-        exp = getattr(s, "_cv_len", None)
+        st = rec.side(s)
+        exp = st.get("len")
         cur = getattr(s, "_samples", None)
-        return exp is not None and (cur is None or len(cur) != exp or id(cur) != getattr(s, "_cv_lid", None))
+        return exp is not None and (cur is None or len(cur) != exp or id(cur) != st.get("lid"))
 
     def note_len(s):
         cur = getattr(s, "_samples", None)
+        st = rec.side(s)
         if cur is not None:
-            s._cv_len, s._cv_lid = len(cur), id(cur)
+            st["len"], st["lid"] = len(cur), id(cur)
         else:
-            s._cv_len, s._cv_lid = None, None
+            st["len"], st["lid"] = None, None
 
     def window(opname):
         def mk(orig):
             def wrapper(self, n, *a, **k):
                 if tampered(self):
                     rec.close(self)
-                if getattr(self, "_cv_win", 0):
+                st = rec.side(self)
+                if st.get("win", 0):
                     return orig(self, n, *a, **k)
-                self._cv_win = 1
+                st["win"] = 1
                 started = False
                 try:
                     if not self._is_initialized:
@@ -154,7 +161,7 @@ def install_sampler_life(rec, step_extra=None):
                     rec.close(self)       # an exception inside a sampling loop ends the trace (nothing more is checked)
                     raise
                 finally:
-                    self._cv_win = 0
+                    st["win"] = 0
                     if started:
                         rec.emit(self, {"e": "end", "op": opname, "len": len(self._samples) if self._samples is not None else -1})
                     note_len(self)
@@ -165,17 +172,18 @@ def install_sampler_life(rec, step_extra=None):
 
     def mk_step(orig):
         def wrapper(self, *a, **k):
-            if getattr(self, "_cv_instep", 0):
+            st = rec.side(self)
+            if st.get("instep", 0):
                 return orig(self, *a, **k)
-            self._cv_instep = 1
+            st["instep"] = 1
             before = step_extra and step_extra.get("before") and step_extra["before"](self)
             acc = None
             try:
                 acc = orig(self, *a, **k)
                 return acc
             finally:
-                self._cv_instep = 0
-                ev = {"e": "step", "pid": vid(getattr(self, "current_point", None)), "win": int(getattr(self, "_cv_win", 0))}
+                st["instep"] = 0
+                ev = {"e": "step", "pid": vid(getattr(self, "current_point", None)), "win": int(st.get("win", 0))}
                 if step_extra and step_extra.get("after"):
                     try:
                         ev.update(step_extra["after"](self, before, acc))
@@ -211,13 +219,14 @@ def install_sampler_life(rec, step_extra=None):
 
     def mk_reinit(orig):
         def wrapper(self):
-            if getattr(self, "_cv_inreinit", 0):
+            st = rec.side(self)
+            if st.get("inreinit", 0):
                 return orig(self)
-            self._cv_inreinit = 1
+            st["inreinit"] = 1
             try:
                 return orig(self)
             finally:
-                self._cv_inreinit = 0
+                st["inreinit"] = 0
                 rec.emit(self, {"e": "reinit"})
                 note_len(self)
         return wrapper
